@@ -40,6 +40,11 @@ func init() {
 		"servitor/verifrt.Concrete": vrConcrete,
 		"servitor/verifrt.Symbolic": func(in *Interp, fr *frame, fn *ssa.Function, a []Value) (Value, bool) { return SBool{V: true}, true },
 		"servitor/verifrt.JSON":    vrJSON,
+		"servitor/verifrt.Hang": func(in *Interp, fr *frame, fn *ssa.Function, a []Value) (Value, bool) {
+			in.cur.fr = fr
+			in.abort("hang", "blocks forever: "+argStr(a[0]), fr.servitorSite())
+			return nil, true
+		},
 		"servitor/verifrt.All":     vrAll,
 		"servitor/verifrt.Any":     vrAny,
 		"servitor/verifrt.InSet":   vrInSet,
